@@ -5,8 +5,8 @@ Each entry: id, property, file, old text, new text, expect (substring of a viola
 M = []
 
 
-def mut(id, prop, file, old, new, expect, note=""):
-    M.append({"id": id, "prop": prop, "file": file, "old": old, "new": new, "expect": expect, "note": note})
+def mut(id, prop, file, old, new, expect, note="", extra=None):
+    M.append({"id": id, "prop": prop, "file": file, "old": old, "new": new, "expect": expect, "note": note, "extra": extra or []})
 
 
 A = "src/async_io/mod.rs"
@@ -103,3 +103,76 @@ mut("c12-benign-explicit-match", "C12", A,
             };
             if read == 0 {""",
     None, "`?` written as explicit match")
+
+# ---- C07 -------------------------------------------------------------------------------------------------
+mut("c07-epilogue-before-replies", "C07", A,
+    """        if let out @ [_, ..] = self.parser.output_buffer() {
+            // Parser::output_buffer is usually empty, so
+            // we don't use complex, (partial) vectored writes.
+            output.write_all(out).await?;
+            self.parser.consume_output(out.len());
+        }
+        output.write_all(&endreq).await?;""",
+    """        output.write_all(&endreq).await?;
+        if let out @ [_, ..] = self.parser.output_buffer() {
+            output.write_all(out).await?;
+            self.parser.consume_output(out.len());
+        }""",
+    "R7.3/close/", "management replies written after EndRequest")
+mut("c07-always-success-status", "C07", A,
+    """        let endreq = fcgi::body::make_request_epilogue(request_id, status, streams);""",
+    """        let _ = status;
+        let endreq = fcgi::body::make_request_epilogue(request_id, ExitStatus::SUCCESS, streams);""",
+    "R7.", "exit status ignored")
+mut("c07-inverted-keepconn", "C07", A,
+    """        if self.parser.request.flags.contains(fcgi::RequestFlags::KeepConn) {""",
+    """        if !self.parser.request.flags.contains(fcgi::RequestFlags::KeepConn) {""",
+    "R7.4", "reuse decision inverted")
+mut("c07-skip-close-on-abort", "C07", A,
+    """                        tracing::debug!("request aborted by remote");
+                        ExitStatus::ABORT""",
+    """                        tracing::debug!("request aborted by remote");
+                        return None;""",
+    "R7.2", "no EndRequest after abort")
+mut("c07-handler-twice", "C07", A,
+    """                let status = match handler(&mut req).await {""",
+    """                let _ = handler(&mut req).await;
+                let status = match handler(&mut req).await {""",
+    "R7.1", "handler invoked twice")
+mut("c07-epilogue-id-zero", "C07", A,
+    """        let endreq = fcgi::body::make_request_epilogue(request_id, status, streams);""",
+    """        let endreq = fcgi::body::make_request_epilogue(0, status, streams);""",
+    "R7.3/close/epilogue-id", "EndRequest for id 0")
+mut("c07-drop-record-boundary", "C07", A,
+    """        self.record_boundary().await?;
+
+        // Send required""",
+    """        // Send required""",
+    "R7.3/close/epilogue-preconditions", "connection reused mid-record")
+mut("c07-streams-unconditional", "C07", A,
+    """        let streams = if self.writeable { self.role().output_streams() } else { &[] };""",
+    """        let streams = self.role().output_streams();""",
+    "R7.3/close/", "stream end records even when not writeable")
+mut("c07-benign-extract-flush-helper", "C07", A,
+    """        if let out @ [_, ..] = self.parser.output_buffer() {
+            // Parser::output_buffer is usually empty, so
+            // we don't use complex, (partial) vectored writes.
+            output.write_all(out).await?;
+            self.parser.consume_output(out.len());
+        }
+        output.write_all(&endreq).await?;""",
+    """        Self::flush_replies(&mut self.parser, &mut output).await?;
+        output.write_all(&endreq).await?;""",
+    None, "flush extracted into a helper",
+    extra=[("""    /// Writes all of `Parser::output_buffer` into `self.output`.
+    fn poll_output(""", """    async fn flush_replies(parser: &mut stream::Parser<'a>, output: &mut W) -> io::Result<()> {
+        use futures_util::AsyncWriteExt;
+        if let out @ [_, ..] = parser.output_buffer() {
+            output.write_all(out).await?;
+            parser.consume_output(out.len());
+        }
+        Ok(())
+    }
+
+    /// Writes all of `Parser::output_buffer` into `self.output`.
+    fn poll_output(""")])
